@@ -174,6 +174,27 @@ Section Rfc9535.
 
   (* ---- documented extensions (docs/syntax.md, docs/advanced.md) ------------------- *)
 
+  (* typeof(): "the type of the first argument as a string, in JSON terminology, like
+     JavaScript's typeof"; NodesType parameter, ValueType result (docs/functions.md).  Nothing
+     selected is "undefined"; exactly one node is named after its value; several nodes are the
+     array of their values. *)
+  Definition fname_typeof : ustr := [116; 121; 112; 101; 111; 102]%N.
+  Definition type_name (v : json) : ustr :=
+    match v with
+    | JNull => [110; 117; 108; 108]%N
+    | JBool _ => [98; 111; 111; 108; 101; 97; 110]%N
+    | JNum _ => [110; 117; 109; 98; 101; 114]%N
+    | JStr _ => [115; 116; 114; 105; 110; 103]%N
+    | JArr _ => [97; 114; 114; 97; 121]%N
+    | JObj _ => [111; 98; 106; 101; 99; 116]%N
+    end.
+  Definition fn_typeof (ns : list node) : option json :=
+    match ns with
+    | [] => Some (JStr [117; 110; 100; 101; 102; 105; 110; 101; 100]%N)
+    | [n] => Some (JStr (type_name (snd n)))
+    | _ :: _ :: _ => Some (JStr (type_name (JArr (map snd ns))))
+    end.
+
   (* `in` / `contains`: membership in arrays (element equality as the host language's
      list membership), strings (substring) and object keys *)
   Fixpoint substring_of (a b : ustr) : bool :=
@@ -236,6 +257,8 @@ Section Rfc9535.
           end
         else if ustr_eqb name fname_value then
           match args with ECons a ENil => fn_value (q_nodes a root ctx cur key) | _ => None end
+        else if ustr_eqb name fname_typeof then
+          match args with ECons a ENil => fn_typeof (q_nodes a root ctx cur key) | _ => None end
         else None
     | _ => None
     end
